@@ -10,8 +10,15 @@ package webrtc
 //     Sender().GetParameters().Encodings holds (SSRC, RTX.SSRC, FEC.SSRC); before any remote description was applied, a video
 //     sender of an engine with an attached rtx / a flexfec codec must carry an RTX / FEC ssrc (that is "when those are enabled");
 //     with more than one encoding every RID has an `a=rid:<rid> send` line;
-//   * an application section is present exactly when this side created a data channel or AlwaysNegotiateDataChannels is set.
+//   * an application section is present exactly when this side created a data channel or AlwaysNegotiateDataChannels is set
+//     (given to NewPeerConnection or switched on later by a successful SetConfiguration); never more than one. When only the
+//     REMOTE side created a data channel and negotiated it, the statement is silent (the section then exists because an
+//     m-section can never be withdrawn): presence is only counted there, duplication is still judged.
 // The SDP side is read with kit.ParseSDP only.
+//
+// Histories cover both roles in the first negotiation: the PeerConnection under test may offer first, or may first ANSWER an
+// offer of the peer (media only / data only / media + data) and create its own offers afterwards, so that offers are built
+// against every kind of current remote description (none, with, without application section).
 
 import (
 	"fmt"
@@ -94,14 +101,22 @@ type c12Case struct {
 	pc   *PeerConnection
 	peer *PeerConnection
 
-	always    bool // Configuration.AlwaysNegotiateDataChannels
-	dcCreated bool // this side created a data channel
-	remoteSet int  // number of remote descriptions applied on pc
-	nTrack    int
-	steps     []c12Step
-	nontriv   bool
-	offers    int
-	dead      bool // an exchange failed: the signaling state is not reliable any more
+	always     bool // AlwaysNegotiateDataChannels as this side set it (NewPeerConnection or a successful SetConfiguration)
+	alwaysInit bool // ... the value given to NewPeerConnection
+	dcCreated  bool // this side created a data channel
+	remoteSet  int  // number of remote descriptions applied on pc
+	peerFirst  bool // the peer makes the first offer of the case (pc starts as answerer)
+	localNew   bool // pc got a transceiver since the last complete exchange: its mid is only tentative (CreateOffer without SetLocalDescription)
+	peerDC     bool // the peer created a data channel
+	peerDCNeg  bool // ... and an offer of the peer carrying it was answered by pc
+	pcOffered  bool // an offer of pc was applied in a complete exchange
+
+	answeredFirst bool // the first complete exchange of the case was started by the peer
+	nTrack        int
+	steps         []c12Step
+	nontriv       bool
+	offers        int
+	dead          bool // an exchange failed: the signaling state is not reliable any more
 }
 
 func (c *c12Case) step(op, detail string, err error) {
@@ -114,7 +129,7 @@ func (c *c12Case) step(op, detail string, err error) {
 
 func (c *c12Case) violation(sig, what, sdp string) {
 	c.run.Violation(sig, what, c.idx, map[string]any{
-		"engine": c.eng.Name, "always_negotiate_datachannels": c.always, "steps": c.steps, "offer": sdp, "state": c.stateDump(),
+		"engine": c.eng.Name, "always_negotiate_datachannels": c.always, "always_at_construction": c.alwaysInit, "peer_first": c.peerFirst, "steps": c.steps, "offer": sdp, "state": c.stateDump(),
 	})
 }
 
@@ -350,13 +365,46 @@ func (c *c12Case) checkOffer(offer SessionDescription) { //nolint:cyclop,gocogni
 	}
 	wantApp := c.dcCreated || c.always
 	c.run.Seen("application_expected", fmt.Sprintf("dc=%v always=%v", c.dcCreated, c.always))
+	// which generator situation this offer was built in (evidence + cause signature only, never decides the verdict)
+	remoteApp := "no-remote-description"
+	if rd := c.pc.CurrentRemoteDescription(); rd != nil {
+		remoteApp = "remote-without-application"
+		if p, perr := kit.ParseSDP(rd.SDP); perr == nil {
+			for _, m := range p.Media {
+				if m.Kind == "application" {
+					remoteApp = "remote-with-application"
+				}
+			}
+		}
+	}
+	why := "none"
+	switch {
+	case c.dcCreated && c.always:
+		why = "datachannel+always"
+	case c.dcCreated:
+		why = "datachannel"
+	case c.always:
+		why = "always"
+	}
+	c.run.Seen("application_situations", why+"/"+remoteApp)
+	if c.pc.GetConfiguration().AlwaysNegotiateDataChannels != c.always {
+		c.run.Count("model_divergence_config_readback", 1)
+	}
 	switch {
 	case wantApp && len(apps) == 0:
-		c.violation("application-section-missing", fmt.Sprintf("data channel created=%v AlwaysNegotiateDataChannels=%v but the offer has no application section", c.dcCreated, c.always), offer.SDP)
+		c.violation("application-section-missing:"+why+":"+remoteApp, fmt.Sprintf("data channel created=%v AlwaysNegotiateDataChannels=%v (at construction %v) but the offer has no application section; offer built with %s",
+			c.dcCreated, c.always, c.alwaysInit, remoteApp), offer.SDP)
+	case !wantApp && c.peerDCNeg:
+		// only the remote side asked for data channels: outside the statement, observed only
+		c.run.Seen("application_remote_datachannel_only", fmt.Sprintf("sections=%d", len(apps)))
 	case !wantApp && len(apps) > 0:
-		c.violation("application-section-unexpected", "no data channel was created and AlwaysNegotiateDataChannels is off, but the offer has an application section", offer.SDP)
-	case len(apps) > 1:
-		c.violation("application-section-duplicated", fmt.Sprintf("%d application sections", len(apps)), offer.SDP)
+		c.violation("application-section-unexpected:"+remoteApp, "no data channel was created and AlwaysNegotiateDataChannels is off, but the offer has an application section", offer.SDP)
+	}
+	if len(apps) > 1 {
+		c.violation("application-section-duplicated:"+remoteApp, fmt.Sprintf("%d application sections", len(apps)), offer.SDP)
+	}
+	if c.answeredFirst {
+		c.run.Count("offers_checked_after_answering_first", 1)
 	}
 	if len(trs) >= 1 && sending >= 1 && len(d.Media) >= 2 {
 		c.nontriv = true
@@ -398,10 +446,68 @@ func (c *c12Case) exchange(offerer, answerer *PeerConnection, what string) bool 
 
 		return false
 	}
+	if c.remoteSet == 0 && offerer != c.pc {
+		c.answeredFirst = true
+	}
 	c.remoteSet++
 	c.run.Count("exchanges", 1)
+	if offerer == c.pc {
+		c.pcOffered = true
+		c.localNew = false // every transceiver of pc is now known to the peer under its mid
+	} else if c.peerDC {
+		c.peerDCNeg = true
+	}
 
 	return true
+}
+
+// peerMutate lets the peer change what its next offer contains: 1-2 of a bare transceiver (any direction), a sending track,
+// a data channel.
+func (c *c12Case) peerMutate() (what string, ok bool) {
+	r := c.r
+	dirs := []RTPTransceiverDirection{RTPTransceiverDirectionSendrecv, RTPTransceiverDirectionSendonly, RTPTransceiverDirectionRecvonly}
+	var parts []string
+	for j, n := 0, r.Range(1, 2); j < n; j++ {
+		switch k := r.Intn(10); {
+		case k < 5:
+			kind, dir := c.kind(), kit.Pick(r, dirs)
+			_, err := c.peer.AddTransceiverFromKind(kind, RTPTransceiverInit{Direction: dir})
+			c.step("peer.AddTransceiverFromKind", kind.String()+" "+dir.String(), err)
+			if err == nil {
+				parts = append(parts, dir.String())
+			}
+		case k < 8:
+			tr := c.newTrack(c.kind(), "")
+			_, err := c.peer.AddTrack(tr)
+			c.step("peer.AddTrack", tr.Kind().String()+" "+tr.StreamID()+"/"+tr.ID(), err)
+			if err == nil {
+				parts = append(parts, "track")
+			}
+		default:
+			_, err := c.peer.CreateDataChannel(fmt.Sprintf("peerdc%d", len(c.steps)), nil)
+			c.step("peer.CreateDataChannel", "", err)
+			if err == nil {
+				c.peerDC = true
+				parts = append(parts, "datachannel")
+			}
+		}
+	}
+	sort.Strings(parts)
+
+	return strings.Join(c12Uniq(parts), "+"), len(parts) > 0
+}
+
+// peerOffers: the peer changes its side and starts a negotiation that pc answers. Only called while every transceiver of pc
+// is known to the peer (!localNew): otherwise the tentative mids CreateOffer handed out on pc may collide with the peer's.
+func (c *c12Case) peerOffers(tag string) {
+	what, ok := c.peerMutate()
+	if !ok {
+		return
+	}
+	if c.exchange(c.peer, c.pc, "exchange(peer offers)") {
+		c.run.Seen("ops", "peer offers "+what)
+		c.run.Seen("peer_offer_situations", tag)
+	}
 }
 
 func (c *c12Case) op() { //nolint:cyclop,gocognit
@@ -409,17 +515,20 @@ func (c *c12Case) op() { //nolint:cyclop,gocognit
 	pc := c.pc
 	dirs := []RTPTransceiverDirection{RTPTransceiverDirectionSendrecv, RTPTransceiverDirectionSendonly, RTPTransceiverDirectionRecvonly}
 	switch k := r.Intn(100); {
-	case k < 16:
+	case k < 15:
 		tr := c.newTrack(c.kind(), "")
 		_, err := pc.AddTrack(tr)
+		c.localNew = true
 		c.step("AddTrack", tr.Kind().String()+" "+tr.StreamID()+"/"+tr.ID(), err)
 		c.run.Seen("ops", "AddTrack")
-	case k < 30:
+	case k < 28:
 		kind, dir := c.kind(), kit.Pick(r, dirs)
 		_, err := pc.AddTransceiverFromKind(kind, RTPTransceiverInit{Direction: dir})
+		c.localNew = true
 		c.step("AddTransceiverFromKind", kind.String()+" "+dir.String(), err)
 		c.run.Seen("ops", "AddTransceiverFromKind "+dir.String())
-	case k < 42:
+	case k < 39:
+		c.localNew = true
 		tr := c.newTrack(c.kind(), "")
 		init := RTPTransceiverInit{Direction: kit.Pick(r, dirs[:2])}
 		detail := tr.Kind().String() + " " + init.Direction.String() + " " + tr.StreamID() + "/" + tr.ID()
@@ -430,7 +539,8 @@ func (c *c12Case) op() { //nolint:cyclop,gocognit
 		_, err := pc.AddTransceiverFromTrack(tr, init)
 		c.step("AddTransceiverFromTrack", detail, err)
 		c.run.Seen("ops", "AddTransceiverFromTrack "+init.Direction.String())
-	case k < 50:
+	case k < 47:
+		c.localNew = true
 		// simulcast: base track with a RID, further encodings through AddEncoding
 		rids := []string{"q", "h", "f"}[:r.Range(2, 3)]
 		base := c.newTrack(RTPCodecTypeVideo, rids[0])
@@ -447,7 +557,7 @@ func (c *c12Case) op() { //nolint:cyclop,gocognit
 			}
 		}
 		c.run.Seen("ops", "simulcast")
-	case k < 58:
+	case k < 54:
 		senders := pc.GetSenders()
 		if len(senders) == 0 {
 			return
@@ -456,7 +566,7 @@ func (c *c12Case) op() { //nolint:cyclop,gocognit
 		err := pc.RemoveTrack(senders[n])
 		c.step("RemoveTrack", fmt.Sprintf("sender %d of %d", n, len(senders)), err)
 		c.run.Seen("ops", "RemoveTrack")
-	case k < 68:
+	case k < 63:
 		senders := pc.GetSenders()
 		if len(senders) == 0 {
 			return
@@ -481,7 +591,7 @@ func (c *c12Case) op() { //nolint:cyclop,gocognit
 			c.step("ReplaceTrack", fmt.Sprintf("sender %d: %s/%s", n, tr.StreamID(), tr.ID()), err)
 			c.run.Seen("ops", "ReplaceTrack track")
 		}
-	case k < 74:
+	case k < 69:
 		trs := pc.GetTransceivers()
 		if len(trs) == 0 {
 			return
@@ -490,14 +600,30 @@ func (c *c12Case) op() { //nolint:cyclop,gocognit
 		err := trs[n].Stop()
 		c.step("Stop", fmt.Sprintf("transceiver %d", n), err)
 		c.run.Seen("ops", "Stop")
-	case k < 84:
+	case k < 78:
 		_, err := pc.CreateDataChannel(fmt.Sprintf("dc%d", len(c.steps)), nil)
 		c.step("CreateDataChannel", "", err)
 		if err == nil {
 			c.dcCreated = true
 		}
 		c.run.Seen("ops", "CreateDataChannel")
-	case k < 96:
+	case k < 84:
+		// configuration change in mid-history: SetConfiguration with the current configuration, in 60% with the option switched on
+		// (pion documents that SetConfiguration only ever switches it on, so it is never passed as false once it is true)
+		cfg := pc.GetConfiguration()
+		if r.Chance(0.6) {
+			cfg.AlwaysNegotiateDataChannels = true
+		}
+		err := pc.SetConfiguration(cfg)
+		c.step("SetConfiguration", fmt.Sprintf("AlwaysNegotiateDataChannels=%v", cfg.AlwaysNegotiateDataChannels), err)
+		if err == nil && cfg.AlwaysNegotiateDataChannels {
+			if !c.always {
+				c.run.Seen("ops", fmt.Sprintf("SetConfiguration switches always on (remote descriptions so far: %d)", min(c.remoteSet, 1)))
+			}
+			c.always = true
+		}
+		c.run.Seen("ops", "SetConfiguration")
+	case k < 94:
 		if len(pc.GetTransceivers()) == 0 && !c.dcCreated && !c.always {
 			return // an offer without m-sections cannot be applied by the peer (no ICE credentials)
 		}
@@ -514,21 +640,26 @@ func (c *c12Case) op() { //nolint:cyclop,gocognit
 			}
 		}
 	default:
-		// the peer adds media and offers; everything this side holds is negotiated first, so that mids are known to both
-		if len(pc.GetTransceivers()) == 0 && !c.dcCreated && !c.always {
+		// the peer adds media / a data channel and offers. If this side holds transceivers the peer has not seen, they are
+		// negotiated first so that mids are known to both; otherwise the peer may offer straight away (also as the very first
+		// negotiation of the case).
+		nothing := len(pc.GetTransceivers()) == 0 && !c.dcCreated && !c.always
+		direct := !c.localNew && (nothing || r.Chance(0.6))
+		if !direct {
+			if nothing {
+				return
+			}
+			if !c.exchange(pc, c.peer, "exchange(pc offers)") {
+				return
+			}
+			c.peerOffers("after pc's offer")
+
 			return
 		}
-		if !c.exchange(pc, c.peer, "exchange(pc offers)") {
-			return
-		}
-		kind, dir := c.kind(), kit.Pick(r, dirs)
-		_, err := c.peer.AddTransceiverFromKind(kind, RTPTransceiverInit{Direction: dir})
-		c.step("peer.AddTransceiverFromKind", kind.String()+" "+dir.String(), err)
-		if err != nil {
-			return
-		}
-		if c.exchange(c.peer, pc, "exchange(peer offers)") {
-			c.run.Seen("ops", "peer offers "+dir.String())
+		if c.remoteSet == 0 {
+			c.peerOffers("direct, first negotiation")
+		} else {
+			c.peerOffers("direct, renegotiation")
 		}
 	}
 }
@@ -544,9 +675,11 @@ func (c *c12Case) transceiverOf(s *RTPSender) *RTPTransceiver {
 }
 
 func TestVerifC12(t *testing.T) {
-	run := kit.Start(t, "C12", "case = engine (default / plain / rtx / rtx+flexfec / flexfec) x AlwaysNegotiateDataChannels x a history of 1-9 operations "+
+	run := kit.Start(t, "C12", "case = engine (default / plain / rtx / rtx+flexfec / flexfec) x AlwaysNegotiateDataChannels at construction x who starts the first negotiation "+
+		"(pc, or the peer with a media-only / data-only / media+data offer that pc answers) x a history of 1-9 operations "+
 		"(AddTrack, AddTransceiverFromKind/FromTrack in all directions, simulcast AddEncoding, RemoveTrack, ReplaceTrack incl. nil, Stop, CreateDataChannel, "+
-		"complete exchange with a pion peer, peer-initiated offer), CreateOffer checked after every operation; non-trivial when some checked offer had "+
+		"SetConfiguration incl. switching AlwaysNegotiateDataChannels on, complete exchange with a pion peer, peer-initiated offer with transceivers / tracks / data channel, "+
+		"direct or after pc's own offer), CreateOffer checked after every operation; non-trivial when some checked offer had "+
 		">= 2 m-sections and >= 1 sending track; distinct by the operation history")
 	defer run.Finish()
 	run.Assume("kit.ParseSDP line splitter is the trusted base; API state (GetTransceivers, Direction, Sender, GetParameters) is read right after CreateOffer returns, no concurrent mutators")
@@ -555,7 +688,9 @@ func TestVerifC12(t *testing.T) {
 	n := kit.N(2000, 30000)
 	run.Parallel(n, 16, func(i int) {
 		r := run.CaseRand(i)
-		c := &c12Case{run: run, idx: i, r: r, eng: kit.Pick(r, c12Engines), always: r.Chance(0.15)}
+		c := &c12Case{run: run, idx: i, r: r, eng: kit.Pick(r, c12Engines), always: r.Chance(0.2)}
+		c.alwaysInit = c.always
+		c.peerFirst = r.Chance(0.3)
 		defer func() {
 			if p := recover(); p != nil {
 				fmt.Printf("C12: case %d panicked: %v\n  steps: %+v\n", i, p, c.steps)
@@ -580,6 +715,13 @@ func TestVerifC12(t *testing.T) {
 		if r.Chance(0.1) {
 			c.offerAndCheck() // empty PeerConnection
 		}
+		if c.peerFirst {
+			// first negotiation started by the peer: pc answers before it has made any offer of its own
+			c.peerOffers("prologue, first negotiation")
+			if !c.dead {
+				c.offerAndCheck()
+			}
+		}
 		nOps := r.Range(1, 9)
 		for k := 0; k < nOps && !c.dead; k++ {
 			c.op()
@@ -592,8 +734,9 @@ func TestVerifC12(t *testing.T) {
 		for _, s := range c.steps {
 			hist = append(hist, s.Op+" "+s.Detail+" "+s.Err)
 		}
-		run.Case(c.eng.Name+fmt.Sprint(c.always)+"|"+strings.Join(hist, ";"), c.nontriv)
+		run.Case(c.eng.Name+fmt.Sprint(c.alwaysInit, c.peerFirst)+"|"+strings.Join(hist, ";"), c.nontriv)
 		run.Seen("engine", c.eng.Name)
+		run.Seen("first_negotiation", map[bool]string{true: "peer offers first", false: "pc offers first / none"}[c.peerFirst])
 		if i < 30 && c.nontriv && c.offers >= 3 {
 			run.Sample(map[string]any{"case": i, "engine": c.eng.Name, "always": c.always, "steps": c.steps, "final_state": c.stateDump()})
 		}
